@@ -83,7 +83,7 @@ def run(chk: harness.Check):
         "D2: the MIR expression returned by convert_f64 is canonicalised and compared with the affine formula; Converter::convert_value maps "
         "number, range start and range end through convert_f64 with (from, to) in parameter order. D3: the convert_value call in convert_to_unit "
         "is edge-dominated by equality of the two physical quantities; every assignment to *self in convert_impl is preceded by the fallible steps. "
-        "D4: best_unit receivers come from self.best[unit.physical_quantity].conversions(system). D6: expand_si gives a prefixed unit ratio = base.ratio * prefix.ratio() "
+        "D4: best_unit receivers come from self.best[unit.physical_quantity].conversions(system). D8: convert_impl and fit_fraction replace number and unit in one write, both from the same conversion result. D7: the C12 identity value(new_approx(v)) = v and its limit/saturation guards, claimed here because fit stores that result. D6: expand_si gives a prefixed unit ratio = base.ratio * prefix.ratio() "
         "and the base's difference/quantity/system, and update_expanded_units overwrites all_units[expanded_id] whole with the regenerated unit. Shape and lineage only — no value is computed from an input.")
     chk.trusted = ["tables/units_reference.toml (international definitions)", "rustc const evaluation of float literals", "build.rs transfers TOML values verbatim (checked by the multiset comparison)"]
     d1_units(chk, F)
@@ -92,7 +92,57 @@ def run(chk: harness.Check):
     d4_designated(chk, F)
     d5_fit_range(chk, F)
     d6_si_expansion(chk, F, "C09.D6-si-expansion")
+    d8_value_unit_together(chk, F)
+    # D7: "preserves the amount, any recorded fraction error included" — fitting stores Number::new_approx's result, so the
+    # writer/reader identity and the limit/saturation guards decided for C12 are necessary here too
+    import c12
+    sub = harness.Check("C12", chk.tier)
+    c12.run(sub)
+    harness.fold(chk, sub, lambda r: "C09.D7-fraction-exact" if r.startswith("C12.") else r,
+                 keep=lambda r: r in ("C12.D1-agreement", "C12.D2-limits", "anchor-missing"))
     chk.analysed["facts"] = th
+
+
+def d8_value_unit_together(chk, F, rule="C09.D8-value-unit-together"):
+    """A converted / fitted quantity gets its number and its unit in ONE write, both taken from the same conversion
+    result: `*self = Quantity::new(value, Some(unit.symbol()))`. Writing self.value and self.unit separately lets one path
+    update the number and keep the old unit label (the amount is then off by the ratio of the two units)."""
+    from flow import resolve_rvalue, leaves, show
+    for name, src in (("convert_impl", "convert::Converter::convert"), ("fit_fraction", "Iterator::min_by")):
+        fs = [f for f in F.funcs.values() if f.key.endswith("::" + name) and "Quantity" in f.key and not f.is_closure()]
+        if len(fs) != 1:
+            chk.fail("anchor-missing", name, "", f"anchor-missing: Quantity::{name} found {len(fs)} times")
+            continue
+        f = fs[0]
+        whole, parts = [], []
+        for i, j, st in f.iter_stmts():
+            if st["k"] != "assign" or not st["place"]["p"] or f.local_name(st["place"]["l"]) != "self":
+                continue
+            pr = st["place"]["p"]
+            if pr == ["*"]:
+                whole.append((i, st))
+            elif pr[-1] in (".value", ".unit"):
+                parts.append((i, st, pr[-1]))
+        for b, t in f.calls():
+            if t["dest"]["p"] == ["*"] and f.local_name(t["dest"]["l"]) == "self":
+                whole.append((b, {"rv": None, "line": t.get("line"), "call": t}))
+        for i, st, fld in parts:
+            chk.fail(rule, f"{name}|separate{fld}", f"{f.file}:{st.get('line')}",
+                     f"{name} writes self{fld} on its own: number and unit of a converted quantity must be replaced together")
+        chk.floor(rule, f"{name}|whole writes of *self", len(whole), 1, f"{f.file}:{f.line}")
+        for i, st in whole:
+            if st.get("rv") is None:
+                t = st["call"]
+                e = ("call", callee_key(t) or "", tuple(resolve(f, a) for a in t["args"]), i)
+            else:
+                e = resolve_rvalue(f, st["rv"], 0, frozenset(), i)
+            ok = e[0] == "call" and e[1].endswith("Quantity::<V>::new") and len(e[2]) == 2
+            if ok:
+                lv, lu = leaves(e[2][0]), leaves(e[2][1])
+                ok = any(l.endswith(src) for l in lv) and any(l.endswith(src) for l in lu) and any(l.endswith("Unit::symbol") for l in lu)
+            chk.expect(ok, rule, f"{name}|*self", f"{f.file}:{st.get('line')}",
+                       f"{name} must replace the quantity by Quantity::new(value, Some(unit.symbol())) with value and unit from the same `{src.rsplit('::', 1)[-1]}` result; "
+                       f"it writes {show(e, -50)[:120]}", sample=f"{f.file}:{st.get('line')}: *self = Quantity::new(new_value, Some(new_unit.symbol()))")
 
 
 def d6_si_expansion(chk, F, rule):
